@@ -175,6 +175,14 @@ func c02Verbs(w *rt.W, n uint64) {
 				fail("verb", "Sprintf "+verb, s, want)
 			}
 		}
+		for _, vb := range []struct {
+			verb rune
+			f    roman.Format
+		}{{'s', df}, {'R', 0}, {'r', roman.FormatLowerCase}, {'L', long}, {'l', long | roman.FormatLowerCase}} {
+			if s, want := formatVia(num, vb.verb), ref.RomanFormat(n, refRomanFlags(vb.f)); s != want {
+				fail("verb", "Format(%"+string(vb.verb)+") through a plain fmt.State", s, want)
+			}
+		}
 		for _, verb := range wideVerbs {
 			if s, want := fmt.Sprintf(verb, num), wantD; s != want {
 				fail("verb", "Sprintf "+verb, s, want)
